@@ -142,7 +142,7 @@ def impl_canon(api, d):
     reply = unhex_(d.get("reply", "-"))
     outs, hints = impl_outcomes(api, reply)
     pre, ready, onerr, eoc = (int(x) for x in d["calls"].split(","))
-    return " ; ".join(outs) + f" | pre={pre} ready={ready} onerr={onerr}", hints
+    return " ; ".join(outs) + f" | pre={pre} ready={ready} onerr={onerr} eoc={eoc}", hints
 
 
 OUT_RE = re.compile(r" ; ")
@@ -150,7 +150,7 @@ OUT_RE = re.compile(r" ; ")
 
 def model_canon(line):
     """canonical text for a model output line; returns (text, flags) flags: set of 'crash','multipart'"""
-    outs, pre, ready, onerr, flags = [], 0, 0, 0, set()
+    outs, pre, ready, onerr, eoc, flags = [], 0, 0, 0, 0, set()
     for o in line.split(" ; "):
         o = o.strip()
         if not o:
@@ -160,6 +160,9 @@ def model_canon(line):
         if w[0] == "app":
             ready += 1
             pre += int(kv.get("pre", "0"))
+            # C02 cgi_counters: on_end_of_content is delivered exactly to an early-called filter application whose
+            # request reaches the application
+            eoc += int(kv.get("pre", "0"))
             outs.append(" ".join(x for x in w if not x.startswith("pre=")))
         elif w[0] == "status":
             pre += int(kv.get("pre", "0")); onerr += int(kv.get("onerr", "0"))
@@ -172,7 +175,7 @@ def model_canon(line):
             flags.add("multipart"); outs.append(o)
         else:
             outs.append(o)
-    return " ; ".join(outs) + f" | pre={pre} ready={ready} onerr={onerr}", flags
+    return " ; ".join(outs) + f" | pre={pre} ready={ready} onerr={onerr} eoc={eoc}", flags
 
 
 def split_by_reads(data, reads):
